@@ -107,8 +107,11 @@ class Engine(object):
             t, ["req_loss", "rep_loss", "rep_delay", "rep_dup", "req_delay",
                 "req_dup", "retryable_rc", "fatal_rc", "host_stall",
                 "clock_jump_fwd", "clock_jump_back", "partition", "rep_batch",
-                "spurious_wakeup"],
+                "spurious_wakeup", "slow_iterable", "slow_callback"],
             self.timeout)
+        # time the host spends in the caller's own code (the iterable that
+        # produces the commands, a callback) since rig last read the clock
+        self.caller_time = 0.0
         self.pre_advance = [0, 0, 0, 0xfff0, 0xffff, 0x7fff][t.draw(6)]
         self.net = SimNetwork(w, self.policy)
         self.net.hosts["spinn"] = "10.0.0.1"
@@ -124,6 +127,7 @@ class Engine(object):
         def time_spy():
             v = orig_time()
             self.last_clock = v
+            self.caller_time = 0.0
             return v
         tim.time = time_spy
         self.scp = rig_module("rig.machine_control.scp_connection")
@@ -199,7 +203,11 @@ class Engine(object):
         if exp != got or not r.wellformed:
             w.violate("P", "datagram for command %d does not encode it: "
                       "expected %r got %r" % (cid, exp, got), kind="encoding")
-        clock = self.last_clock
+        # the host clock at this transmission: what rig read last plus the
+        # time the caller's code has taken since (a stall or jump that rig
+        # had no means to see between its reading and this send is not
+        # counted against it)
+        clock = self.last_clock + self.caller_time
         if c.tx_clock:
             # retransmission
             self.retx += 1
@@ -278,6 +286,7 @@ class Engine(object):
             r = wire.parse_scp(bytes(packet))
             w.trace.ev("callback", c.id)
             c.callbacks += 1
+            self.caller_code("slow_callback")
             if c.callbacks > 1:
                 w.violate("X1", "callback of command %d invoked %d times"
                           % (c.id, c.callbacks), kind="callback-twice")
@@ -318,6 +327,24 @@ class Engine(object):
             import functools
             return functools.partial(cb)
         return cb
+
+    def caller_code(self, kind):
+        """The caller's own code (the command iterable, a callback) may take
+        its time: the host clock moves on while rig is not looking."""
+        p = self.policy.rate(kind)
+        if p > 0 and self.tape.chance(p):
+            d = (0.01 + 0.99 * (1 + self.tape.draw(10)) / 10.0 *
+                 min(1.0, 2 * self.timeout))
+            self.w.fault(kind)
+            self.w.trace.ev(kind, d)
+            self.w.sim.now += d
+            self.caller_time += d
+            self.caller_total += d
+
+    def slow_iter(self, calls):
+        for call in calls:
+            self.caller_code("slow_iterable")
+            yield call
 
     # -- workload ----------------------------------------------------------
     def new_cmd(self, burst, simple=False):
@@ -392,6 +419,7 @@ class Engine(object):
         retx0 = self.retx
         t_start = self.w.sim.now
         seam0 = self.w.sim.seam_calls
+        self.caller_total = 0.0
         label = ("send_scp" if single else "burst") + \
             "#%d n=%d window=%d%s" % (idx, n, self.cur_window,
                                       " HEALED" if heal else "")
@@ -426,6 +454,8 @@ class Engine(object):
                                      c.arg3, c.data, self.make_callback(c))
                          for c in cmds]
                 it = iter(calls) if self.tape.draw(2) else calls
+                if self.policy.rate("slow_iterable") > 0:
+                    it = self.slow_iter(calls)
                 self.conn.send_scp_burst(self.buffer_size, window, it)
         except scp.TimeoutError as e:
             outcome, exc = "TimeoutError", e
@@ -561,7 +591,8 @@ class Engine(object):
                  n * 0.05 + 1.0 + 12 * self.timeout * self.w.faults.get(
                      "host_stall", 0) + 0.6 * self.timeout * self.w.faults.get(
                      "clock_jump_back", 0) +
-                 (w.sim.seam_calls - seam0) * w.sim.TICK)
+                 (w.sim.seam_calls - seam0) * w.sim.TICK +
+                 self.caller_total * (1 + self.n_tries))
         if elapsed > bound:
             w.violate("L", "call took %.3f s of virtual time; bound %.3f s"
                       % (elapsed, bound), kind="duration")
@@ -569,7 +600,8 @@ class Engine(object):
         if not self.policy.any_net() and not any(
                 self.policy.rate(k) for k in
                 ("retryable_rc", "fatal_rc", "host_stall", "clock_jump_fwd",
-                 "clock_jump_back")) and (heal or self.clean) and \
+                 "clock_jump_back", "slow_iterable", "slow_callback")) and \
+                (heal or self.clean) and \
                 getattr(self, "long_victim", None) is None and \
                 not warped:
             if outcome != "returned":
@@ -611,7 +643,7 @@ class Engine(object):
             self.clean = not (self.policy.any_net() or any(
                 self.policy.rates.get(k, 0) for k in
                 ("retryable_rc", "fatal_rc", "host_stall", "clock_jump_fwd",
-                 "clock_jump_back")))
+                 "clock_jump_back", "slow_iterable", "slow_callback")))
             n_ops = t.op_count(1, 6)
             do_long = (self.tier == "thorough" and t.draw(1000) == 0) or \
                 bool(os.environ.get("VERIF_C06_FORCE_LONG"))
